@@ -2,7 +2,7 @@
    Theorems only (proofs in Acme.C04.Proofs_Xxx). "No mutating call panics" is what the
    correspondence run exhibits for the Go code (every call runs inside recover()); the model is
    total by construction. *)
-From Acme.C04 Require Import Spec Proofs_Noop Proofs_Pre Proofs_Refs.
+From Acme.C04 Require Import Spec Proofs_Noop Proofs_Pre Proofs_Refs Proofs_RegCor.
 
 Theorem error_is_noop : forall s o, Inv s -> is_err (snd (step s o)) = true -> fst (step s o) = s.
 Proof. exact Proofs_Noop.error_is_noop. Qed.
@@ -23,3 +23,10 @@ Print Assumptions cause_spec.
 Theorem error_is_noop3 : forall s o, Inv3 s -> is_err (snd (step3 s o)) = true -> fst (step3 s o) = s.
 Proof. exact Proofs_Refs.error_is_noop3. Qed.
 Print Assumptions error_is_noop3.
+
+(* layer 2 (AppendSignal / InsertSignal / RemoveSignal / RemoveAllSignals / Signal.UpdateName /
+   MultiplexerSignal.InsertSignal / RemoveSignal / ClearSignalGroup / ClearAllSignalGroups and the
+   signal constructors; every operation of layers 1 and 3 lifted): a refused call changes nothing *)
+Theorem error_is_noop2 : forall s o, Inv2 s -> is_err (snd (step2 s o)) = true -> fst (step2 s o) = s.
+Proof. exact Proofs_RegCor.error_is_noop2. Qed.
+Print Assumptions error_is_noop2.
